@@ -2,14 +2,14 @@
 from __future__ import annotations
 
 import ast
-from typing import Dict, List, Optional, Set
+from typing import Any, Dict, List, Optional, Set
 
 from .. import codec
 from ..astutil import stmts_in_order
 from ..model import FuncInfo, is_self_attr, norm, walk_no_nested
 from ..paths import ExcHierarchy, PathInterp
 from ..report import Ctx
-from ..runner_rules import RUNNER, analyse_runner
+from ..runner_rules import RUNNER, analyse_runner, definite
 from ..selftest import Mutant, synthetic_overlay
 
 RES = 'pyphysim/simulations/results.py'
@@ -49,16 +49,32 @@ def _reachable_from_save(ctx: Ctx) -> List[FuncInfo]:
     return list(seen.values())
 
 
-def _write_mode(c: ast.Call) -> Optional[str]:
-    mode = None
-    if len(c.args) >= 2 and isinstance(c.args[1], ast.Constant):
-        mode = c.args[1].value
+def _write_mode(c: ast.Call, fn: Optional[FuncInfo] = None, fns: Optional[List[FuncInfo]] = None) -> Optional[str]:
+    """Literal write mode of an open() call; a mode that is a PARAMETER of fn is resolved at fn's call sites."""
+    mexpr = c.args[1] if len(c.args) >= 2 else None
     for k in c.keywords:
-        if k.arg == 'mode' and isinstance(k.value, ast.Constant):
-            mode = k.value.value
-    if isinstance(mode, str) and any(ch in mode for ch in 'wax+'):
-        return mode
-    return None
+        if k.arg == 'mode':
+            mexpr = k.value
+    modes: List[Any] = []
+    if isinstance(mexpr, ast.Constant):
+        modes = [mexpr.value]
+    elif isinstance(mexpr, ast.Name) and fn is not None and mexpr.id in fn.params and fns:
+        a = fn.node.args
+        names = [x.arg for x in a.posonlyargs + a.args]
+        if fn.self_name and names and names[0] == fn.self_name:
+            names = names[1:]
+        pos = names.index(mexpr.id) if mexpr.id in names else None
+        for g in fns:
+            for n in ast.walk(g.node):
+                if isinstance(n, ast.Call) and isinstance(n.func, ast.Attribute) and n.func.attr == fn.name:
+                    v = n.args[pos] if pos is not None and pos < len(n.args) else None
+                    for k in n.keywords:
+                        if k.arg == mexpr.id:
+                            v = k.value
+                    if isinstance(v, ast.Constant):
+                        modes.append(v.value)
+    w = sorted({m for m in modes if isinstance(m, str) and any(ch in m for ch in 'wax+')})
+    return ','.join(w) if w else None
 
 
 def check_atomic(ctx: Ctx, rule: str, fns: List[FuncInfo]) -> int:
@@ -74,12 +90,13 @@ def check_atomic(ctx: Ctx, rule: str, fns: List[FuncInfo]) -> int:
             for c in calls:
                 if not (isinstance(c.func, ast.Name) and c.func.id == 'open' and c.args):
                     continue
-                mode = _write_mode(c)
+                mode = _write_mode(c, fn, fns)
                 if mode is None:
                     continue
                 n_sites += 1
                 construct = fn.qualname
-                ctx.instance(rule, construct + ':open(%s)' % mode)
+                for one_mode in mode.split(','):        # one instance per format written through this site
+                    ctx.instance(rule, construct + ':open(%s)' % one_mode)
                 target = norm(c.args[0])
                 params = set(fn.params)
                 # the opened name must be a temporary (not a parameter = the final name) ...
@@ -138,17 +155,20 @@ def check(ctx: Ctx) -> None:
     q = 'SimulationRunner._simulate_for_current_params_common'
     ctx.rule('C07.b', 'saved count == merged count at every save site; count stored in current_rep before saving; resume '
                       'reads that field; both formats carry it', floor=5)
-    for c, st in it.save_sites:
+    for c, st, sfn, ds in it.save_sites:
         construct = q + ':' + c.func.attr
         ctx.instance('C07.b', construct)
-        bad = [el for el in st if it.Dof(el) != 0]
+        bad = [d for d in ds if definite(d)]
         args = [norm(a) for a in c.args]
-        ok = not bad and len(args) >= 3 and args[0] == it.N and args[2] == it.R
-        ctx.obligation('C07.b', construct, ok, {'args': args, 'abstract_states': [repr(e[:2]) for e in st]})
+        if not bad and any(d == 'unknown' for d in ds):
+            ctx.error('C07.b: the analysis lost track of the counter/results given to %s(%s) in %s (cannot tell)'
+                      % (c.func.attr, ', '.join(args), sfn.qualname))
+        ok = not bad and len(args) >= 3
+        ctx.obligation('C07.b', construct, ok, {'args': args, 'in': sfn.qualname, 'results_minus_counter': [str(d) for d in ds]})
         if not ok:
-            ctx.violation('C07.b', q, 'at %s(%s) the saved count and the merged results can disagree (states %s): a '
-                          'restart would lose or double count repetitions'
-                          % (c.func.attr, ', '.join(args), [repr(e[:2]) for e in (bad or st)]), fn.path, c.lineno,
+            ctx.violation('C07.b', q, 'at %s(%s) in %s the saved count and the merged results can disagree (results - counter '
+                          'in %s): a restart would lose or double count repetitions'
+                          % (c.func.attr, ', '.join(args), sfn.qualname, sorted({str(d) for d in ds})), sfn.path, c.lineno,
                           operand=c.func.attr)
     sv = M.func(RUNNER, 'SimulationResultsSaver.save_partial_results')
     stmts = stmts_in_order(sv)
@@ -169,15 +189,18 @@ def check(ctx: Ctx) -> None:
                       'the counter is not stored into current_sim_results.current_rep (exactly once, from the '
                       '`current_rep` argument) before every save_to_file of that object', sv.path, sv.lineno,
                       operand='store-before-save')
-    # resume reads that same field of the loaded object
-    reads = [n for n in walk_no_nested(fn.node) if isinstance(n, ast.Assign) and isinstance(n.value, ast.Attribute)
-             and n.value.attr == 'current_rep' and isinstance(n.value.value, ast.Name) and n.value.value.id == it.R
-             and any(isinstance(t, ast.Name) and t.id == it.N for t in n.targets)]
+    # resume reads that same field of the loaded object: on the resume path (results = the loaded object) the loop
+    # starts with the counter equal to the loaded object's own current_rep (wherever that read was written)
+    heads = [el for st in it.head_states for el in st]
+    resumed = [el for el in heads if el[0] not in (None, ('?', 0)) and el[0][0] == 'L']
     ctx.instance('C07.b', q + ':resume-read')
-    ctx.obligation('C07.b', q + ':resume-read', len(reads) == 1, {'reads': [norm(r) for r in reads]})
-    if len(reads) != 1:
-        ctx.violation('C07.b', q, 'the resume path does not initialise the counter from %s.current_rep' % it.R,
-                      fn.path, fn.lineno, operand='resume-read')
+    okr = bool(resumed) and all(el[1] not in (None, ('?', 0)) and el[1][0] == 'L' and el[0][1] == el[1][1] for el in resumed)
+    if not resumed and any(el[0] == ('?', 0) for el in heads):
+        ctx.error('C07.b: the analysis lost track of the results object before the loop (cannot tell)')
+    ctx.obligation('C07.b', q + ':resume-read', okr, {'loop_entry_states': sorted(repr(el[:2]) for el in heads)})
+    if not okr:
+        ctx.violation('C07.b', q, 'the resume path does not enter the loop with the counter read from %s.current_rep '
+                      '(entry states %s)' % (it.R, sorted(repr(el[:2]) for el in heads)), fn.path, fn.lineno, operand='resume-read')
     # JSON format carries the field
     w = M.func(RES, 'SimulationResults._to_dict')
     r = M.func(RES, 'SimulationResults._from_dict')
